@@ -438,6 +438,11 @@ def run(ctx):
         have = o.st.heap.get(own, own)
         others = sorted(k[2] for k in o.st.heap if k[0] == 'field' and k[1] == res and k[2] != 'refs')
         merged = have == ('concat', own, REFS0)
+        if not merged and have == own:
+            # the same through an iterator over the collected vector (`extend(self.refs.drain(..))`, `extend(self.refs.iter().cloned())`):
+            # the one mutating call on the result's list on this path is an extend with every collected element, front to back
+            touching = [e for e in o.st.ev if e[0] == 'call' and e[2] and e[2][0] == own and e[1].rsplit('::', 1)[-1] not in absx.PURE_OBSERVERS]
+            merged = len(touching) == 1 and touching[0][1].rsplit('::', 1)[-1] in ('extend', 'extend_from_slice') and len(touching[0][2]) == 2 and every_element_of(touching[0][2][1], REFS0)
         n_merge += merged
         okf = o.val == res and not others and (merged or (have == own and none_collected is True))
         ctx.add('Q4.entries-only.finish-merges-refs', which, loc(EF.root), okf,
@@ -522,6 +527,20 @@ def adapters_pass_upstream_errors(ctx, f):
                          '%s::next goes on (%s) on a path on which the upstream next() %s' % (name, o.kind, may))
         ctx.add('Q8.adapter-passes-upstream-error', name + '|coverage', loc(B.root), n_err >= 1, 'no path of %s::next on which an upstream error is returned' % name)
     ctx.floor('Q8', 'Adapter::next implementations of the crate', n_ad, 2)
+
+def every_element_of(t, vec):
+    """t iterates (or is a copy of) every element of the vector term `vec`, front to back: the vector itself, its iter() / into_iter()
+    / iter().cloned() / .copied(), a clone / to_vec / as_slice of it, drain(..) over the full range.  (std: each of these yields
+    all elements in order; none filters, reorders or stops early.)"""
+    if t == vec:
+        return True
+    if t[0] == 'call' and t[2]:
+        name = t[1].rsplit('::', 1)[-1]
+        if name in ('iter', 'into_iter', 'iter_mut', 'cloned', 'copied', 'clone', 'to_vec', 'to_owned', 'as_slice', 'as_mut_slice') and len(t[2]) == 1:
+            return every_element_of(t[2][0], vec)
+        if name == 'drain' and len(t[2]) == 2 and t[2][1][0] == 'struct' and t[2][1][1].endswith('RangeFull'):
+            return every_element_of(t[2][0], vec)
+    return False
 
 def stored_final_result(o):
     """(base, ctrls, other fields written) of the value X that `self.res` holds as Some(X) at the end of path o: base is the value
